@@ -121,6 +121,54 @@ def judge_single_event_weight(gc, U, idx):
     return out
 
 
+POOL = np.array([[(i * p % 97 + 0.5) / 97.0 for i in range(1, 10)] for p in (37, 53, 11, 71)])  # 9 fixed, all-distinct points
+
+
+def judge_batch_sizes(gc):
+    """the geometry-only estimate of a batch of N = 1..9 thrown events, times N, is the sum of the N single-event
+    estimates (an event's weight does not depend on how many events are thrown with it)"""
+    out = []
+    singles = []
+    with np.errstate(all="ignore"):
+        for i in range(POOL.shape[1]):
+            g = make_geom(gc)
+            g.throw(POOL[:, i : i + 1].copy())
+            singles.append(float(g.mcintegral(np.array([np.inf]), np.cos(gc["cone"]) * (1 - 1e-15), np.ones(1), 0.0, 1.0, 1.0)[1]) if g.event_mask[0] else 0.0)
+        for n in range(1, POOL.shape[1] + 1):
+            g = make_geom(gc)
+            g.throw(POOL[:, :n].copy())
+            k = int(np.sum(g.event_mask))
+            got = float(g.mcintegral(np.full(k, np.inf), np.cos(gc["cone"]) * (1 - 1e-15), np.ones(k), 0.0, 1.0, 1.0)[1]) * n if k else 0.0
+            exp = float(sum(singles[:n]))
+            if not (abs(got - exp) <= 1e-11 * max(abs(exp), 1e-300)):
+                out.append(("estimator_independent_of_batch_size", f"N={n}", exp, got))
+    return out
+
+
+def judge_two_instances(gc):
+    """a second, differently configured geometry object constructed (and used) while the first is alive does not change
+    the first one's estimate"""
+    def est(g):
+        with np.errstate(all="ignore"):
+            g.throw(POOL.copy())
+            k = int(np.sum(g.event_mask))
+            return float(g.mcintegral(np.full(k, np.inf), np.cos(gc["cone"]) * (1 - 1e-15), np.ones(k), 0.0, 1.0, 1.0)[1]) if k else 0.0
+
+    alone = est(make_geom(gc))
+    gc2 = dict(gc, cone=gc["cone"] / 2, limb=gc["limb"] * 0.7, az=gc["az"] / 2)
+    out = []
+    a = make_geom(gc)
+    b = make_geom(gc2)
+    got = est(a)
+    if got != alone:
+        out.append(("estimator_independent_of_other_instances", "second instance constructed", alone, got))
+    est(b)
+    got = est(a)
+    if got != alone:
+        out.append(("estimator_independent_of_other_instances", "second instance constructed and used", alone, got))
+    return out
+
+
 def judge_region(gc, m):
     """clause 2 on an m^4 mid-point lattice"""
     g = make_geom(gc)
@@ -289,6 +337,7 @@ def _one_inner(args):
     idx = list(range(0, U.shape[1], max(1, U.shape[1] // 40)))
     vs = judge_single_event_weight(gc, U, idx)
     v2, n2, k2 = judge_region(gc, 6 if tier == "quick" else 8)
+    v2 = list(v2) + judge_batch_sizes(gc) + judge_two_instances(gc)
     res = dict(gc=gc, pw=[(c, U[:, i].tolist(), e, o) for c, i, e, o in v1[:10]], sw=[(c, U[:, i].tolist(), e, o) for c, i, e, o in vs[:10]], rg=v2, info=info, n_pw=int(U.shape[1]), n_sw=len(idx), n_rg=n2, kept_rg=k2, quad=None)
     if math.degrees(gc["cone"]) <= 60.0 + 1e-9:
         levels = [(16, 32), (32, 64)] if tier == "quick" else [(16, 32), (32, 64), (64, 128)]
@@ -351,6 +400,7 @@ def replay(case):
         return [(c, e, o) for c, i, e, o in judge_single_event_weight(gc, U, [0])]
     if k == "rg":
         v, _, _ = judge_region(gc, 6 if case.get("tier", "quick") == "quick" else 8)
+        v = list(v) + judge_batch_sizes(gc) + judge_two_instances(gc)
         return [(c, e, o) for c, name, e, o in v if name == case["name"]]
     if k == "quad":
         v, _, _ = judge_quadrature(gc, [tuple(x) for x in case["levels"]], tuple(case["m4s"]))
